@@ -1,4 +1,4 @@
-SPECIFICATION SpecIdent
+SPECIFICATION Spec
 CONSTANTS
   Classes <- AllClasses
   Shapes = {"solo", "mid", "rot"}
@@ -6,5 +6,10 @@ CONSTANTS
   Schemes <- AllSchemes
   Auths <- AllAuths
   Frags <- AllFrags
+INVARIANT LawRoundTrip
+INVARIANT LawWiden
+INVARIANT LawChange
+INVARIANT LawPresence
+INVARIANT LawForeign
 INVARIANT LawIdent
 CONSTRAINT EmitCase
